@@ -30,6 +30,7 @@ package store
 
 //@ func (*ImmuStore).readTx
 //@   ensures hdr: r0 == nil ==> tx.header != nil && (tx.header.Version == 0 || tx.header.Version == 1)
+//@   ensures c04_entries: r0 == nil ==> tx.entries == old(tx.entries) && 0 <= tx.header.NEntries && tx.header.NEntries <= len(tx.entries)
 //@   assigns internal, tx
 
 //@ func (*ImmuStore).wrapAppendableErr
